@@ -172,6 +172,7 @@ type funcUnderCheck struct {
 	p      *Program
 	key    string
 	isNew  bool // swept function without contract that is not in the committed baseline of the unchanged tree
+	stale  bool // its contract names a loop or a variable that no longer exists: the proof cannot be rebuilt
 	res    *FuncResult
 	rac    *RACResult
 	noProof bool
@@ -355,7 +356,7 @@ func cmdCheck(args []string) {
 			for _, lk := range p.staleLoops(k) {
 				stale = append(stale, fmt.Sprintf("%s: %s loop %q", dir, k, lk))
 			}
-			f := &funcUnderCheck{p: p, key: k}
+			f := &funcUnderCheck{p: p, key: k, stale: len(p.staleLoops(k)) > 0}
 			if fn := p.Funcs[k]; fn != nil && base != nil && p.Contracts[k] == nil {
 				if ic, _ := p.ifaceContractFor(fn); ic == nil && !base[dir][k] {
 					f.isNew = true
@@ -380,6 +381,12 @@ func cmdCheck(args []string) {
 		f.res = f.p.verifyFunc(f.key, false)
 		results = append(results, f.res)
 		for _, er := range f.res.Errors {
+			if strings.Contains(er, "unknown identifier") && (strings.Contains(er, "invariant") || strings.Contains(er, "decreases")) {
+				// a loop annotation names a variable that no longer exists: stale contract, not an engine fault
+				f.stale = true
+				stale = append(stale, f.key+": "+er)
+				continue
+			}
 			engineErrors = append(engineErrors, f.key+": "+er)
 		}
 	}
@@ -487,6 +494,15 @@ func cmdCheck(args []string) {
 					knownSeen[kf.ID] = true
 					fmt.Printf("KNOWN-FINDING: property=%s %s\n", *prop, kf.Text)
 				}
+				continue
+			}
+			if f.stale {
+				// the contract of this function refers to a loop or variable that is gone (the function was
+				// restructured): the proof cannot be rebuilt, which is "undecided"; the bounded stand-ins of
+				// the property still run on the real code and decide
+				fmt.Printf("UNDECIDED property=%s obligation=%s (the contract of %s is stale: a loop or variable it names no longer exists)\n",
+					*prop, strings.ReplaceAll(o.Name, " ", "_"), f.key)
+				undecided++
 				continue
 			}
 			if f.isNew {
